@@ -22,7 +22,7 @@ def replay(rp):
     return 1
 
 
-TECHNIQUE = "Coq/Coquelicot proofs that the translated scalar rules are the true derivatives + ring-generic adjointness theorems for broadcasting, selections, bilinear and R-linear maps, reductions; translator regenerated from /repo each run; model-vs-implementation correspondences evaluated in Coq (structure read off NumPy); exact/numeric Jacobian oracle over the call-configuration space"
+TECHNIQUE = "Coq/Coquelicot proofs that the translated scalar rules are the true derivatives + ring-generic adjointness theorems for broadcasting, selections, bilinear and R-linear maps, reductions; translator regenerated from /repo each run; model-vs-implementation correspondences evaluated in Coq (structure read off NumPy); exact/numeric Jacobian oracle over the call-configuration space; unbroadcast's loops translated from the source on every run and proved equal to the model's step lists (gen/GenBroadcast.v)"
 DESIGN_REF = "DESIGN.md 4.5"
 LEVEL_TEXT = "Family-partial proof: see Props/C05.v for the proved set (ufunc-style rules for all shapes/broadcasts; structural (selection) primitives for every selection list; bilinear primitives (dot/matmul/tensordot/inner/outer/kron/einsum/cross/multiply) for every list of structure constants, real and complex operands; R-linear primitives on complex arrays in realified form (FFT family, real/imag/conj); sum/mean over any axes; var/std/prod/cumsum/2-norm on fibres of any length); everything else (linalg decompositions, non-integer FFT lengths, non-constant pad modes, gradient, ...) is examined by the implementation oracle and not claimed as proved."
 LEVEL_NOTE = "Trusted: Coq kernel; stdlib real-number axioms (sig_forall_dec, sig_not_dec, functional_extensionality_dep, classic) via Reals/Coquelicot; the translator; NumPy as the primal."
